@@ -53,8 +53,14 @@ def keep_copy_only_for_same_object(ck: Checker, rule: str) -> None:
         e = t.ast
         if t.kind != "test" or not (isinstance(e, ast.Compare) and len(e.ops) == 1 and isinstance(e.ops[0], (ast.Eq, ast.NotEq))):
             return False
-        sides = {norm(e.left), norm(e.comparators[0])}
-        if not (any(s.endswith("new.oid") for s in sides) and any(s.endswith("old.oid") for s in sides)):
+        from ..prov import expand_txt
+
+        def alts(x):
+            # `new_oid = change.new.oid; old_entry = change.old`: locals put back
+            return {norm(x)} | set(expand_txt(ck.prog, fn, x))
+
+        la, ra = alts(e.left), alts(e.comparators[0])
+        if not ((any(s.endswith("new.oid") for s in la) and any(s.endswith("old.oid") for s in ra)) or (any(s.endswith("old.oid") for s in la) and any(s.endswith("new.oid") for s in ra))):
             return False
         return (isinstance(e.ops[0], ast.Eq) and lab == "T") or (isinstance(e.ops[0], ast.NotEq) and lab == "F")
 
